@@ -66,6 +66,7 @@ bool info_ok(const std::string& got, const CModel& m) {
 struct Sys {
   RateMonitoring mon; CheckupEqualToRate eq; CheckupGreaterThanRate gt;
   RModel rm; CModel ceq, cgt; long long origin, last;
+  bool zeroFirst = false;   // the first data stamp is exactly 0 ns (the value the monitor's "last stamp" starts with)
   Sys(double rate, double tol, long long org) : mon(rate), eq("lidar", rate, tol), gt("lidar", rate, tol), rm(rate), ceq(0, "lidar", rate, tol), cgt(1, "lidar", rate, tol), origin(org), last(org) {}
 };
 
@@ -91,6 +92,7 @@ template <class CK> bool check_report(vf::Ctx& c, const CK& ck, const CModel& m,
 // apply one event to implementation and model, compare everything observable; false on violation
 bool step(vf::Ctx& c, Sys& s, const Event& e, const std::string& params) {
   long long t = s.last + e.dt;
+  if (s.zeroFirst && e.data && !s.rm.any) t = 0;
   bool ok = true;
   c.eval();
   if (e.data) {
@@ -160,19 +162,19 @@ void s1(vf::Ctx& c, double rate, double tol, size_t maxStates) {
     std::vector<int> hist = fr.front(); fr.pop_front();
     for (int ev = 0; ev < (int)A.size(); ++ev) {
       // replay the history on fresh objects (twice: origin T0 and shifted origin), then the new event
-      Sys s(rate, tol, T0), s2(rate, tol, T1);
+      Sys s(rate, tol, T0), s2(rate, tol, T1), s3(rate, tol, -20 * kS); s3.zeroFirst = true;
       vf::Ctx mute; mute.scratch = true;
       std::vector<Event> evs;
       bool okReplay = true;
-      for (int h : hist) { evs.push_back(A[h]); okReplay = step(mute, s, A[h], "{}") && okReplay; step(mute, s2, A[h], "{}"); }
+      for (int h : hist) { evs.push_back(A[h]); okReplay = step(mute, s, A[h], "{}") && okReplay; step(mute, s2, A[h], "{}"); step(mute, s3, A[h], "{}"); }
       if (!okReplay || mute.c.violations) { c.violation("harness.replayDivergence", vf::JO().raw("history", ev_json(evs)).done(), "{}"); continue; }
       evs.push_back(A[ev]);
       std::string params = vf::JO().str("explorer", "S1").num("expected_rate", rate).num("tolerance", tol).raw("history", ev_json(evs)).done();
       c.transitions(); c.traces();
       bool ok = step(c, s, A[ev], params);
-      vf::Ctx m2; step(m2, s2, A[ev], params);
-      if (ok && (m2.c.violations || canon(s) != canon(s2) || s.mon.getRate() != s2.mon.getRate())) {
-        c.violation("RateMonitoring.timeOriginDependence", params, vf::JO().num("rate_origin0", s.mon.getRate()).num("rate_shifted", s2.mon.getRate()).done()); ok = false;
+      vf::Ctx m2; step(m2, s2, A[ev], params); step(m2, s3, A[ev], params);
+      if (ok && (m2.c.violations || canon(s) != canon(s2) || s.mon.getRate() != s2.mon.getRate() || canon(s) != canon(s3) || s.mon.getRate() != s3.mon.getRate())) {
+        c.violation("RateMonitoring.timeOriginDependence", params, vf::JO().num("rate_origin0", s.mon.getRate()).num("rate_shifted", s2.mon.getRate()).num("rate_first_stamp_zero", s3.mon.getRate()).done()); ok = false;
       }
       if (s.rm.nstamps > s.rm.W + 1 || !A[ev].data) c.nontrivial();
       if (!ok) continue;
@@ -196,15 +198,17 @@ void s1b(vf::Ctx& c, double rate, double tol, int depth, int first) {
   std::vector<int> seq(depth); seq[0] = first;
   for (uint64_t k = 0; k < total; ++k) {
     uint64_t r = k; for (int i = 1; i < depth; ++i) { seq[i] = r % NE; r /= NE; }
-    Sys s(rate, tol, 1000 * kS);
-    std::vector<Event> evs;
-    for (int i = 0; i < depth; ++i) {
-      evs.push_back(A[seq[i]]);
-      c.transitions(); if (i) c.nontrivial();
-      std::string params = (i + 1 == depth || (k % NE) == 0) ? vf::JO().str("explorer", "S1b").num("expected_rate", rate).num("tolerance", tol).raw("history", ev_json(evs)).done() : std::string("{\"explorer\":\"S1b\"}");
-      if (!step(c, s, A[seq[i]], params)) break;
+    for (int z = 0; z < 2; ++z) {
+      Sys s(rate, tol, z ? -20 * kS : 1000 * kS); s.zeroFirst = z;
+      std::vector<Event> evs;
+      for (int i = 0; i < depth; ++i) {
+        evs.push_back(A[seq[i]]);
+        c.transitions(); if (i) c.nontrivial();
+        std::string params = (i + 1 == depth || (k % NE) == 0) ? vf::JO().str("explorer", "S1b").num("expected_rate", rate).num("tolerance", tol).b("first_stamp_zero", z).raw("history", ev_json(evs)).done() : std::string("{\"explorer\":\"S1b\"}");
+        if (!step(c, s, A[seq[i]], params)) break;
+      }
+      c.traces();
     }
-    c.traces();
     if (c.c.violations > 30) return;
   }
 }
@@ -214,8 +218,8 @@ void s1b(vf::Ctx& c, double rate, double tol, int depth, int first) {
 //  0 jitter +10%, 1 jitter -10%, 2 burst (1 us period), 3 silence 0.6 s, 4 silence 10 s, 5 early heartbeat inserted, 6 late heartbeat inserted (0.5s+1ns), 7 very late heartbeat (2 s) then data
 struct Dev { int pos, kind; };
 const char* kDevName[] = {"jitter+10%", "jitter-10%", "burst_1us", "silence_0.6s", "silence_10s", "heartbeat_early", "heartbeat_0.5s+1ns", "heartbeat_2s"};
-bool run_script(vf::Ctx& c, double rate, double tol, int len, const std::vector<Dev>& devs) {
-  Sys s(rate, tol, 77 * kS);
+bool run_script(vf::Ctx& c, double rate, double tol, int len, const std::vector<Dev>& devs, bool zeroFirst = false) {
+  Sys s(rate, tol, zeroFirst ? -20 * kS : 77 * kS); s.zeroFirst = zeroFirst;
   long long period = (long long)llround(1e9 / rate);
   std::vector<Event> evs;
   for (int i = 0; i < len; ++i) {
@@ -233,7 +237,7 @@ bool run_script(vf::Ctx& c, double rate, double tol, int len, const std::vector<
   }
   auto params = [&](size_t upto) {
     std::string ds = "["; for (size_t k = 0; k < devs.size(); ++k) { if (k) ds += ","; ds += vf::JO().i("pos", devs[k].pos).str("kind", kDevName[devs[k].kind]).done(); } ds += "]";
-    return vf::JO().str("explorer", "S2").num("expected_rate", rate).num("tolerance", tol).i("script_length", len).raw("deviations", ds).u("failed_at_event", upto).done();
+    return vf::JO().str("explorer", "S2").num("expected_rate", rate).num("tolerance", tol).i("script_length", len).b("first_stamp_zero", zeroFirst).raw("deviations", ds).u("failed_at_event", upto).done();
   };
   for (size_t i = 0; i < evs.size(); ++i) {
     c.transitions();
@@ -245,9 +249,10 @@ bool run_script(vf::Ctx& c, double rate, double tol, int len, const std::vector<
 }
 
 void s2(vf::Ctx& c, double rate, double tol, int len, int bound, int first) {
-  if (first < 0) { run_script(c, rate, tol, len, {}); return; }
+  if (first < 0) { run_script(c, rate, tol, len, {}); run_script(c, rate, tol, len, {}, true); return; }
   for (int k1 = 0; k1 < 8; ++k1) {
     if (!run_script(c, rate, tol, len, {{first, k1}})) return;
+    if (!run_script(c, rate, tol, std::min(len, 150), {{first, k1}}, true)) return;
     if (bound >= 2) for (int p2 = first + 1; p2 < len; ++p2) for (int k2 = 0; k2 < 8; ++k2) if (!run_script(c, rate, tol, len, {{first, k1}, {p2, k2}})) return;
   }
 }
@@ -292,6 +297,7 @@ std::string vf_describe(const std::string& tier) {
   o.str("S1b", th ? "every sequence of 6 events over the 11-event alphabet for expected rates 1 (W=4) and 2.5 (W=5), no state de-duplication" : "every sequence of 5 events over the 11-event alphabet for expected rates 1 (W=4) and 2.5 (W=5), no state de-duplication");
   o.str("S2", th ? "expected rates 5,10,12.5,32,200 x tolerance {0,0.1}: 500-event steady script, deviation bound 1 at every position (8 kinds), bound 2 on scripts of 2-3 windows"
                  : "expected rates 5,10,12.5,32,200 x tolerance {0,0.1}: 500-event steady script (bound 0), bound 1 on 3W+8 events (8 kinds, every position), bound 2 on 2W+6 events for rate 5 and 12.5");
+  o.str("time_origins", "S1: every transition at two origins plus a run whose first data stamp is exactly 0 ns, canonical states compared; S1b: every sequence with a positive origin and with first stamp 0; S2: bound 0/1 scripts also with first stamp 0 (first 150 events)");
   o.str("oracle", "rate = 0 until W+1 stamps, then W/(span of last W periods) within 4 ulp; timeout iff silence > 0.5 s; report status/message/info vs model after every event");
   return o.done();
 }
